@@ -10,7 +10,7 @@ from sa.flow import Interp
 from sa.summary import is_abstract_body
 
 CLAIM = {
-    "text": "Decides, for every close path of the package (all aclose/close/server_close methods of transport-like classes, clients and servers, the stapled-transport helpers, aclose_forcefully, TLS wrap(), the per-connection server tasks and the constructors that take over a socket), that on every exit edge - normal return, any exception out of any call, cancellation out of any await that can really suspend un-shielded - the close of each owned transport/socket has been invoked (gracefully or forcefully), directly, through a callee that is itself proven to close its argument, or through an ExitStack registration; that the closing flag is stored before the underlying close; that the event a second closer waits on is set on every exit of the first close and shared close-waiter futures are only awaited through asyncio.shield. Necessary structural condition of the property, decided for all cancellation points at once. close()/aclose() never takes a guard or lock that a receive method of the same class holds while waiting; AsyncTCPNetworkClient.aclose() cancels the pending connector before its first suspension point, and the connector stays registered while the race is awaited. Round 4: both async clients cancel the pending connector before dropping it and before their first suspension point; the asyncio stream adapter sets its write-buffer limit to zero, so close() frees the descriptor as soon as a send has completed (C20.zero).",
+    "text": "Decides, for every close path of the package (all aclose/close/server_close methods of transport-like classes, clients and servers, the stapled-transport helpers, aclose_forcefully, TLS wrap(), the per-connection server tasks and the constructors that take over a socket), that on every exit edge - normal return, any exception out of any call, cancellation out of any await that can really suspend un-shielded - the close of each owned transport/socket has been invoked (gracefully or forcefully), directly, through a callee that is itself proven to close its argument, or through an ExitStack registration; that the closing flag is stored before the underlying close; that the event a second closer waits on is set on every exit of the first close and shared close-waiter futures are only awaited through asyncio.shield. Necessary structural condition of the property, decided for all cancellation points at once. close()/aclose() never takes a guard or lock that a receive method of the same class holds while waiting; AsyncTCPNetworkClient.aclose() cancels the pending connector before its first suspension point, and the connector stays registered while the race is awaited. Round 4: both async clients cancel the pending connector before dropping it and before their first suspension point; the asyncio stream adapter sets its write-buffer limit to zero, so close() frees the descriptor as soon as a send has completed (C20.zero). Round 5: no exemption for failures before the first await in functions that take a transport over (finding F9, fixed); the pending connector of both async clients stays registered while the attempt is awaited; the fair lock's waiter queue is trimmed by identity (C12.fifo).",
     "note": "Trusted: API tables (which calls cannot raise, which awaits are shielded), annotations for receiver types, cancel-scope semantics (a scope swallows only at its exit; cancelled_caught() correlates with that), task-group semantics. Not decided: promptness of a second close in time, OS-level release. Known findings F6a/F6b (AsyncTCP/UDP client aclose cancelled on the send-lock wait) are listed in known_findings.json.",
     "technique": "resource typestate (close-invoked) by abstract interpretation over an exception-aware structured CFG with interprocedural closer summaries, may-cancel summaries and a cancelled_caught() path refinement",
 }
